@@ -106,7 +106,7 @@ def judge_presence(chk, pkg: pg.Pkg, ss: StubSet, pubs: dict, feature_of=lambda 
             allowed = allowed_py_modules(pkg, g, pub)
             if m.py_module not in allowed:
                 viols.append(Viol("declaration-misplaced", where, {"id": g.id, "file": rel, "python_module": m.py_module, "allowed": sorted(allowed)}))
-        chk.case_ok(f"{g.kind}:{pub.via}:{len(g.path)}")
+        chk.case_ok(f"{g.kind}:{pub.via}:{len(g.path)}", ident=(id(pkg), g.id))
     # uniqueness within a file: no two members of one owner with the same Python name and kind
     for rel, m in ss.files.items():
         seen = set()
@@ -143,7 +143,7 @@ def judge_privacy(chk, pkg: pg.Pkg, ss: StubSet, pubs: dict, api: dict | None, t
                 viols.append(Viol("private-declaration-leaked", where, {"id": g.id, "files": [o[0] for o in occ]}))
             elif unique and text_search and _token(g.name) and re.search(r"(?<![A-Za-z0-9_])_*" + re.escape(_token(g.name)) + r"_*(?![A-Za-z0-9_])", alltext):
                 viols.append(Viol("private-name-in-stub-text", where, {"id": g.id, "name": g.name}))
-            chk.case_ok(f"private:{where}")
+            chk.case_ok(f"private:{where}", ident=(id(pkg), "p", g.id))
         if aidx:
             entry = None
             if g.kind in ("class", "nested-class"):
@@ -156,7 +156,7 @@ def judge_privacy(chk, pkg: pg.Pkg, ss: StubSet, pubs: dict, api: dict | None, t
                 expected = pub.public if g.kind != "ctor" else pubs[g.owner.id].public
                 if expected is not None and entry["is_public"] != expected:
                     viols.append(Viol("json-is-public", where, {"id": g.id, "json": entry["is_public"], "expected": expected}))
-                chk.case_ok(f"json:{where}")
+                chk.case_ok(f"json:{where}", ident=(id(pkg), "j", g.id))
     return viols
 
 
